@@ -148,7 +148,7 @@ class eap(packet_base):
     def __str__(self):
         s = '[EAP %s id=%d' % (eap.code_name(self.code), self.id)
         if hasattr(self, 'type'):
-            s += ' type=%s' % (eap.type_names[self.type],)
+            s += ' type=%s' % (eap.type_name(self.type),)
         return s + "]"
 
     def parse(self, raw):
@@ -166,13 +166,9 @@ class eap(packet_base):
         self.payload_len = 0
         self.parsed = True
 
-        if self.code == self.REQUEST_CODE:
-            (self.type,) \
-                = struct.unpack('!B', raw[self.MIN_LEN:self.MIN_LEN + 1 ])
-            # not yet implemented
-        elif self.code == self.RESPONSE_CODE:
-            (self.type,) \
-                = struct.unpack('!B', raw[self.MIN_LEN:self.MIN_LEN + 1 ])
+        if self.code in (self.REQUEST_CODE, self.RESPONSE_CODE):
+            if dlen > self.MIN_LEN:
+                self.type = raw[self.MIN_LEN]
             # not yet implemented
         elif self.code == self.SUCCESS_CODE:
             self.next = None    # Success packets have no payload
